@@ -1,6 +1,9 @@
 package rules
 
 import (
+	"fmt"
+	"go/types"
+	"os"
 	"strings"
 
 	"golang.org/x/tools/go/ssa"
@@ -116,6 +119,7 @@ func c16(e *Env) {
 	e.c05Reconnect("R4")
 	// ---- R5
 	e.spawnRules("R5", "R5")
+	e.connectRule("R6")
 }
 
 // forAllOutputs2 is kept as an alias: forAllOutputs now judges early exits by what happens after them.
@@ -141,7 +145,7 @@ func (e *Env) c16BaseReady() {
 		for _, n := range g.Nodes {
 			if n.Ctx == g.Root && n.Callee != nil && n.Callee.Name() == "Ready" && n.Kind == core.KCall {
 				s := e.argSym(n, 0).String()
-				if strings.Contains(s, "val∈$p."+f) || strings.Contains(s, "val∈") && strings.Contains(strings.ToLower(s), strings.ToLower(f)+"(") {
+				if strings.Contains(s, "val∈$p."+f) || strings.Contains(s, "$p."+f+"[key∈$p."+f+"]") || strings.Contains(s, "val∈") && strings.Contains(strings.ToLower(s), strings.ToLower(f)+"(") {
 					sites = append(sites, n)
 				}
 			}
@@ -243,7 +247,10 @@ func (e *Env) c16Closure() {
 		}
 	}
 	if len(recs) == 0 {
-		r.Ob("R2", "closure", "the upstream closure is computed by a recursive traversal of the remote ports").Unknown(core.FuncName(rtp), "no recursive call taking the process of a remote port in RunToProcs' call tree")
+		if e.c16Worklist(g, rtp) {
+			return
+		}
+		r.Ob("R2", "closure", "the upstream closure is computed by a recursive traversal of the remote ports").Unknown(core.FuncName(rtp), "no recursive call taking the process of a remote port in RunToProcs' call tree, and no work-list traversal recognised")
 		return
 	}
 	for _, kind := range []struct{ key, ports string }{{"InPorts", "invoke:InPorts("}, {"InParamPorts", "invoke:InParamPorts("}} {
@@ -323,4 +330,391 @@ func (e *Env) c16Closure() {
 			ob3.Unknown(core.FuncName(rtp), "no recursion for this port kind")
 		}
 	}
+}
+
+// c16Worklist: the upstream closure computed iteratively: `pending := []P{start}; for len(pending) > 0 { cur := pop;
+// for each direct feeder f of cur { if !seen(f) { add(f); pending = append(pending, f) } } }`, the direct feeders
+// being the processes of the remote ports of cur's in-ports and parameter in-ports (collected inline or by a helper
+// that returns them as a slice). The same obligations as for the recursive form are decided: both port kinds
+// traversed by complete loops, the feeder added to the result, and pushed only under a visited test on itself.
+func (e *Env) c16Worklist(g *core.XG, rtp *ssa.Function) bool {
+	r := e.R
+	xs := e.xsym()
+	sy := e.symbolizer()
+	dbg := os.Getenv("RULE_DEBUG") == "C16"
+	isProcSlice := func(t types.Type) bool {
+		sl, ok := t.Underlying().(*types.Slice)
+		return ok && typeNameOf(sl.Elem()) == "WorkflowProcess"
+	}
+	type push struct {
+		n    *core.Node
+		work string
+		el   *core.Sym
+		loop core.LoopAt
+		elC  *core.Ctx
+		elV  ssa.Value
+	}
+	var pushes []push
+	for _, n := range g.Nodes {
+		c, ok := n.Instr.(*ssa.Call)
+		if !ok || n.Kind == core.KAfter || !n.IsBuiltin("append") || len(c.Call.Args) != 2 || !isProcSlice(c.Call.Args[0].Type()) {
+			continue
+		}
+		// the enclosing work-list loop: `for len(W) > 0` where W is the slice appended to
+		for _, la := range g.EnclLoops(n) {
+			_, iff := core.HeaderTest(la.L)
+			if iff == nil {
+				continue
+			}
+			bo, ok := iff.Cond.(*ssa.BinOp)
+			if !ok {
+				continue
+			}
+			for _, v := range []ssa.Value{bo.X, bo.Y} {
+				lc, ok := v.(*ssa.Call)
+				if !ok {
+					continue
+				}
+				if bi, ok := lc.Call.Value.(*ssa.Builtin); ok && bi.Name() == "len" && isProcSlice(lc.Call.Args[0].Type()) {
+					w := lc.Call.Args[0]
+					// the slice appended to is (a later version of) the loop's slice: same phi web
+					if samePhiWeb(w, c.Call.Args[0]) {
+						el := sy.InCtx(n.Ctx, c.Call.Args[1])
+						ec, ev := rootVal(n.Ctx, varargElem(c.Call.Args[1]))
+						pushes = append(pushes, push{n, sy.InCtx(la.At.Ctx, w).String(), el, la, ec, ev})
+					}
+				}
+			}
+		}
+	}
+	if dbg {
+		for _, p := range pushes {
+			fmt.Println("C16 worklist push:", g.Where(p.n), "el=", p.el.String())
+		}
+	}
+	if len(pushes) == 0 {
+		return false
+	}
+	// the feeders: resolve each pushed element to the remote-port processes it stands for
+	type feed struct {
+		p     push
+		kind  string // InPorts / InParamPorts
+		argS  string // the pushed element as rendered at the push
+		okL   bool
+		where string
+	}
+	kinds := []struct{ key, ports string }{{"InPorts", "invoke:InPorts("}, {"InParamPorts", "invoke:InParamPorts("}}
+	var feeds []feed
+	for _, p := range pushes {
+		elS := p.el.String()
+		// inline form: the element itself is Process(val∈(val∈InPorts(cur)).RemotePorts)
+		if strings.Contains(elS, ".RemotePorts") && strings.Contains(elS, "Process(") {
+			for _, k := range kinds {
+				if !strings.Contains(elS, k.ports) {
+					continue
+				}
+				okL, nLoops := true, 0
+				for _, la := range iterLoops(g, p.n) {
+					coll := e.loopCollection(g, la)
+					if strings.Contains(coll, "RemotePorts") || strings.Contains(coll, k.ports) {
+						nLoops++
+						if !e.loopHarmlessExits(g, la) {
+							okL = false
+						}
+					}
+				}
+				feeds = append(feeds, feed{p, k.key, elS, okL && nLoops >= 2, g.Where(p.n)})
+			}
+			continue
+		}
+		// helper form: the element ranges over the slice a helper returns for the current process
+		var helper *ssa.Function
+		p.el.Walk(func(z *core.Sym) bool {
+			if z.Op == "call" && z.Callee != nil && e.P.IsRepo(z.Callee) && isProcSlice(z.Callee.Signature.Results().At(0).Type()) {
+				helper = z.Callee
+			}
+			return helper == nil
+		})
+		if helper == nil {
+			continue
+		}
+		// the loop over the helper's result must be complete
+		okOuter := false
+		for _, la := range iterLoops(g, p.n) {
+			if strings.Contains(e.loopCollection(g, la), core.FuncName(helper)) || strings.Contains(e.loopCollectionSymX(g, la).String(), helper.Name()) {
+				okOuter = e.loopHarmlessExits(g, la)
+			}
+		}
+		gh := e.XG(helper)
+		if gh == nil {
+			continue
+		}
+		for _, k := range kinds {
+			found := false
+			for _, m := range gh.Nodes {
+				mc, ok := m.Instr.(*ssa.Call)
+				if !ok || m.Kind == core.KAfter || !m.IsBuiltin("append") || len(mc.Call.Args) != 2 || !isProcSlice(mc.Call.Args[0].Type()) {
+					continue
+				}
+				ms := xs.InCtx(m.Ctx, mc.Call.Args[1]).String()
+				if !(strings.Contains(ms, ".RemotePorts") && strings.Contains(ms, "Process(") && strings.Contains(ms, k.ports)) {
+					continue
+				}
+				found = true
+				okL, nLoops := okOuter, 0
+				for _, la := range iterLoops(gh, m) {
+					coll := e.loopCollection(gh, la)
+					if strings.Contains(coll, "RemotePorts") || strings.Contains(coll, k.ports) {
+						nLoops++
+						if !e.loopHarmlessExits(gh, la) {
+							okL = false
+						}
+					}
+				}
+				for _, la := range iterLoops(gh, m) {
+					for _, gd := range e.chainGuards(gh, m, la) {
+						if !strings.HasPrefix(strings.TrimPrefix(gd, "!"), "more∈") {
+							okL = false
+						}
+					}
+					break
+				}
+				feeds = append(feeds, feed{p, k.key, elS, okL && nLoops >= 2, gh.Where(m)})
+			}
+			_ = found
+		}
+	}
+	if len(feeds) == 0 {
+		return false
+	}
+	for _, k := range kinds {
+		ob2 := r.Ob("R2", "closure:"+k.key, "for every remote port of every "+k.key[:len(k.key)-1]+" the remote's process is added to the closure and the traversal recurses into it")
+		ob3 := r.Ob("R3", "closure:cycle-safe#"+k.key, "the recursion is guarded by a visited test on the very process it recurses into (a process that is upstream of itself, as with FromStr, terminates)")
+		n0 := 0
+		for _, f := range feeds {
+			if f.kind != k.key {
+				continue
+			}
+			n0++
+			c := f.p.n
+			if !f.okL {
+				ob2.Fail(f.where, "the loops collecting the feeders of a process are not complete nested loops over the ports and their remote ports")
+				continue
+			}
+			if !e.loopHarmlessExits(g, f.p.loop) {
+				ob2.Fail(g.Where(c), "the work-list loop can be left before the list is empty")
+				continue
+			}
+			added := false
+			for _, m := range g.Nodes {
+				if mu, ok := m.Instr.(*ssa.MapUpdate); ok {
+					mc, mv := rootVal(m.Ctx, mu.Value)
+					if mv != nil && mv == f.p.elV && mc == f.p.elC && (g.ReachableFrom(m, nil)[c] || g.ReachableFrom(c, nil)[m]) {
+						added = true
+					}
+				}
+			}
+			if !added {
+				ob2.Fail(g.Where(c), "the process put on the work list ("+trunc(f.argS, 80)+") is not added to the closure")
+			} else {
+				ob2.OK(g.Where(c), "work list: adds and later expands "+trunc(f.argS, 100)+" (feeders collected at "+f.where+")")
+			}
+			// the push happens only under a visited test on the pushed process; nothing else may suppress it
+			var inner core.LoopAt
+			las := iterLoops(g, c)
+			if len(las) > 0 {
+				inner = las[0]
+			}
+			gs := e.chainGuards(g, c, inner)
+			visited := false
+			for _, gd := range g.Guards(c, sy) {
+				if gd.If != nil && inner.L != nil && inner.L.Blocks[gd.If.Block()] && condLooksUp(c.Ctx, gd.If.Cond, f.p.elC, f.p.elV, 0) {
+					visited = true
+				}
+			}
+			if dbg {
+				fmt.Println("C16 worklist guards:", len(gs), "visited", visited)
+			}
+			if visited {
+				ob3.OK(g.Where(c), "pushed only when not yet in the closure: "+trunc(strings.Join(gs, " && "), 140))
+			} else {
+				ob3.Fail(g.Where(c), "the push of "+trunc(f.argS, 80)+" is not guarded by a visited test on that process: a process that is upstream of itself (InParamPort.FromStr) is pushed forever")
+			}
+		}
+		if n0 == 0 {
+			ob2.Fail(core.FuncName(rtp), "the traversal does not follow the "+k.key+": processes connected only through such ports are missing from the RunTo closure (their consumers block forever)")
+			ob3.Unknown(core.FuncName(rtp), "no traversal for this port kind")
+		}
+	}
+	return true
+}
+
+// samePhiWeb: a and b are versions of one local variable (connected through phis, appends and re-slices).
+func samePhiWeb(a, b ssa.Value) bool {
+	seen := map[ssa.Value]bool{}
+	var reach func(v ssa.Value, depth int) map[ssa.Value]bool
+	reach = func(v ssa.Value, depth int) map[ssa.Value]bool {
+		out := map[ssa.Value]bool{}
+		var walk func(v ssa.Value, d int)
+		walk = func(v ssa.Value, d int) {
+			if v == nil || out[v] || d > 12 {
+				return
+			}
+			out[v] = true
+			switch x := v.(type) {
+			case *ssa.Phi:
+				for _, ev := range x.Edges {
+					walk(ev, d+1)
+				}
+			case *ssa.Slice:
+				walk(x.X, d+1)
+			case *ssa.Call:
+				if bi, ok := x.Call.Value.(*ssa.Builtin); ok && bi.Name() == "append" {
+					walk(x.Call.Args[0], d+1)
+				}
+			}
+		}
+		walk(v, depth)
+		return out
+	}
+	_ = seen
+	ra, rb := reach(a, 0), reach(b, 0)
+	for v := range ra {
+		if _, isPhi := v.(*ssa.Phi); isPhi && rb[v] {
+			return true
+		}
+	}
+	return ra[b] || rb[a]
+}
+
+// rootVal follows a value upwards through the calling contexts of an expanded CFG: a parameter is replaced by the
+// argument at its call site, interface conversions are stripped. Returns the context and value it ends at.
+func rootVal(c *core.Ctx, v ssa.Value) (*core.Ctx, ssa.Value) {
+	for depth := 0; depth < 12 && v != nil; depth++ {
+		switch x := v.(type) {
+		case *ssa.MakeInterface:
+			v = x.X
+			continue
+		case *ssa.ChangeInterface:
+			v = x.X
+			continue
+		case *ssa.ChangeType:
+			v = x.X
+			continue
+		case *ssa.Parameter:
+			if c == nil || c.Parent == nil || c.CallNode == nil || c.CallNode.Call == nil || c.Callback {
+				return c, v
+			}
+			idx := -1
+			for i, p := range c.Fn.Params {
+				if p == x {
+					idx = i
+				}
+			}
+			args := c.CallNode.Call.Args
+			if c.CallNode.Call.IsInvoke() || idx < 0 || idx >= len(args) {
+				return c, v
+			}
+			v, c = args[idx], c.Parent
+			continue
+		}
+		break
+	}
+	return c, v
+}
+
+// varargElem: the single element of a varargs slice `append(s, x)` was compiled to ([]T{x}[:]); nil otherwise.
+func varargElem(v ssa.Value) ssa.Value {
+	sl, ok := v.(*ssa.Slice)
+	if !ok {
+		return nil
+	}
+	al, ok := sl.X.(*ssa.Alloc)
+	if !ok || al.Referrers() == nil {
+		return nil
+	}
+	var el ssa.Value
+	n := 0
+	for _, r := range *al.Referrers() {
+		if ia, ok := r.(*ssa.IndexAddr); ok && ia.Referrers() != nil {
+			for _, r2 := range *ia.Referrers() {
+				if st, ok := r2.(*ssa.Store); ok && st.Addr == ia {
+					el = st.Val
+					n++
+				}
+			}
+		}
+	}
+	if n != 1 {
+		return nil
+	}
+	return el
+}
+
+// condLooksUp: the branch condition cond (evaluated in context c) is, or rests on, a map lookup keyed by the Name()
+// of the value (wc, want) - directly (`_, ok := m[x.Name()]`), negated, or inside a small predicate helper to which
+// the value is passed (`seen.has(x)`).
+func condLooksUp(c *core.Ctx, cond ssa.Value, wc *core.Ctx, want ssa.Value, depth int) bool {
+	if cond == nil || depth > 6 || want == nil {
+		return false
+	}
+	isNameOfWant := func(cc *core.Ctx, k ssa.Value) bool {
+		call, ok := k.(*ssa.Call)
+		if !ok || !call.Call.IsInvoke() || call.Call.Method.Name() != "Name" {
+			return false
+		}
+		rc, rv := rootVal(cc, call.Call.Value)
+		return rv == want && rc == wc
+	}
+	switch x := cond.(type) {
+	case *ssa.UnOp:
+		return condLooksUp(c, x.X, wc, want, depth+1)
+	case *ssa.Extract:
+		return condLooksUp(c, x.Tuple, wc, want, depth+1)
+	case *ssa.Lookup:
+		return isNameOfWant(c, x.Index)
+	case *ssa.BinOp:
+		return condLooksUp(c, x.X, wc, want, depth+1) || condLooksUp(c, x.Y, wc, want, depth+1)
+	case *ssa.Phi:
+		for _, ev := range x.Edges {
+			if condLooksUp(c, ev, wc, want, depth+1) {
+				return true
+			}
+		}
+	case *ssa.Call:
+		f := x.Call.StaticCallee()
+		if f == nil || f.Blocks == nil {
+			return false
+		}
+		// a predicate helper: some lookup in its body is keyed by Name(param_i) with argument i being the wanted value
+		for _, b := range f.Blocks {
+			for _, in := range b.Instrs {
+				lk, ok := in.(*ssa.Lookup)
+				if !ok {
+					continue
+				}
+				call, ok := lk.Index.(*ssa.Call)
+				if !ok || !call.Call.IsInvoke() || call.Call.Method.Name() != "Name" {
+					continue
+				}
+				pv := call.Call.Value
+				for {
+					if mi, ok := pv.(*ssa.MakeInterface); ok {
+						pv = mi.X
+						continue
+					}
+					break
+				}
+				for i, pa := range f.Params {
+					if ssa.Value(pa) == pv && i < len(x.Call.Args) {
+						rc, rv := rootVal(c, x.Call.Args[i])
+						if rv == want && rc == wc {
+							return true
+						}
+					}
+				}
+			}
+		}
+	}
+	return false
 }
